@@ -121,6 +121,8 @@ def run(program, res, tier):
     c09._s1(program, Relabel(res, {"*": "C01-S3"}))
     c04._s1a(program, Relabel(res, {"*": "C01-S4"}))
     c04._s1c(program, Relabel(res, {"*": "C01-S4"}))
+    from . import c08 as _c08
+    _c08._s8_empty_request(program, Relabel(res, {"*": "C01-S4"}))
     f = sqlexpr.confirm_lookup_model(program)
     res.analysed(f)
     rows = sqlexpr.catalog(program)
